@@ -1,5 +1,5 @@
 import StraxModel.Lemmas.MailboxTerm
-import StraxModel.Lemmas.DividerProg
+import StraxModel.Lemmas.DividerTerm
 /-
   C05 — a mailbox delivers every message exactly once, in order, to every subscriber.
 
@@ -61,13 +61,18 @@ theorem sent_is_program_prefix (c : Config) (hv : c.valid = true) (s : Sys) (h :
 ended has an enabled thread, under either of the decidable liveness side conditions
 * `Config.live`: ≥ 1 subscriber, `max_messages ≥ 1`, ≥ 1 driving subscriber in lazy mode, every future completed by
   some worker, messages sent in number order (eager or lazy, either gate rule), or
-* `Config.liveOoo`: ≥ 1 subscriber, futures completed, ANY numbering whose displacement `displ` (max over send
-  positions of the number of already sent messages above the smallest unsent number) is below the capacity (or no
-  capacity limit), in eager mode — or in lazy mode with a driver under the repaired gate rule.
+* `Config.liveOoo`: ≥ 1 subscriber, futures completed, EAGER mode, ANY numbering whose displacement `displ` (max
+  over send positions of the number of already sent messages above the smallest unsent number) is below the
+  capacity (or no capacity limit).
 Together with `no_lost_wakeup` this is "no lost wake-up, no capacity deadlock" for every schedule.
-The one combination left out deadlocks for real: a lazy mailbox with the gate rule as found, fed out of order
-(`lazy_out_of_order_old_rule_deadlock` below); it cannot arise through `_send_from` / `divide_outputs`, which number
-in order.  Termination is `bounded_runs` / `no_infinite_execution` / `terminates` below. -/
+What the hypotheses exclude: `valid` excludes kills / a failing source / duplicate or missing numbers (those runs are
+covered by the safety theorems only); `live` excludes out-of-order numbering; `liveOoo` excludes lazy mode.  The
+combination "lazy mailbox + explicit out-of-order numbers" is outside both on purpose: in strax the fetch gate is in
+`_send_from` / `divide_outputs`, which number in order, and a direct `send(msg, msg_number=…)` passes no gate, so no real
+configuration puts explicit numbers behind a lazy gate (the harness refuses it too).  In the model that combination
+deadlocks under the gate rule as found (`lazy_out_of_order_old_rule_deadlock`, a witness) and not under the
+repaired rule (`Strax.Mailbox.gate_contra_hasMsg`).  Termination is `bounded_runs` / `no_infinite_execution` /
+`terminates` below. -/
 theorem deadlock_free (c : Config) (hv : c.valid = true) (hl : c.live = true ∨ c.liveOoo = true) (s : Sys)
     (h : Reachable c s) (hnf : s.final = false) : ∃ t, (step s t).isSome = true := by
   apply Classical.byContradiction
@@ -222,12 +227,55 @@ theorem divide_delivery (c : DConfig) (hv : c.valid = true) (s : DSys) (h : DRea
     r.got = compOf k c.prog ∧ ∃ rest, r.pc = .done rest :=
   divide_delivery_core hv h hf k o hk i r hr
 
+/-- **no deadlock in a divider network**: inside the domain (`DConfig.valid`) and under the decidable side
+conditions `DConfig.live` — `max_messages ≥ 1`, every output has a subscriber, every future is completed by some
+worker, and in lazy mode every output whose gate the divider passes (not in `flow_freely`) has a driving
+subscriber — every reachable state of the network (divider thread, all output mailboxes, all their subscribers,
+workers) in which some thread has not ended has an enabled thread.  Both gate rules.  `valid` excludes kills, a
+failing source and dicts lacking an output (those runs are covered by `divide_delivery_prefix` only). -/
+theorem divide_deadlock_free (c : DConfig) (hv : c.valid = true) (hl : c.live = true) (s : DSys)
+    (h : DReachable c s) (hnf : s.final = false) : ∃ t, (dstep s t).isSome = true := by
+  apply Classical.byContradiction
+  intro hcon
+  have hstuck : ∀ t, dstep s t = none := by
+    intro t
+    cases hst : dstep s t with
+    | none => rfl
+    | some s' => exact absurd ⟨t, by simp [hst]⟩ hcon
+  rw [divide_deadlock_free_core hv hl h hstuck] at hnf
+  cases hnf
+
+/-- every schedule of a divider network is finite, fairness-free: at most `dstepBound c` steps -/
+theorem divide_bounded_runs (c : DConfig) (hv : c.valid = true) (hl : c.live = true) (sched : List DThread) (s : DSys)
+    (h : drun? (dinit c) sched = some s) : sched.length ≤ dstepBound c := by
+  have h1 := drun_length_le hv hl sched s h
+  have h2 := dmeasure_init_le c
+  omega
+
+/-- **a divider network terminates with exact delivery**: every executable schedule is bounded by `dstepBound c`,
+a run that cannot be extended has all threads ended, and from wherever a schedule has led some continuation
+reaches that state; in it every subscriber of every output has been handed exactly that output's component of
+every dict, in order, and has ended on the end marker -/
+theorem divide_terminates (c : DConfig) (hv : c.valid = true) (hl : c.live = true)
+    (sched : List DThread) (s : DSys) (h : drun? (dinit c) sched = some s) :
+    sched.length ≤ dstepBound c ∧
+    ((∀ t, dstep s t = none) → s.final = true) ∧
+    ∃ ext s', drun? s ext = some s' ∧ s'.final = true ∧
+      ∀ (k : Nat) (o : Out), s'.outs[k]? = some o → ∀ (i : Nat) (r : Reader), o.readers[i]? = some r →
+        r.got = compOf k c.prog ∧ ∃ rest, r.pc = .done rest := by
+  have hr : DReachable c s := DReachable.of_run h
+  refine ⟨divide_bounded_runs c hv hl sched s h, divide_deadlock_free_core hv hl hr, ?_⟩
+  obtain ⟨ext, s', hrun, hstuck⟩ := dexists_completion hv hl (dmeasure c s) s hr (Nat.le_refl _)
+  have hr' : DReachable c s' := dreachable_run_from hr ext hrun
+  have hf := divide_deadlock_free_core hv hl hr' hstuck
+  exact ⟨ext, s', hrun, hf, fun k o hk i r hri => divide_delivery_core hv hr' hf k o hk i r hri⟩
+
 /-- two outputs (the second with two subscribers), two dicts, capacity 1, eager -/
 def exDiv : DConfig :=
   { cap := some 1, lazy := false, gateRule := .hasMsg, outs := [([true], false), ([true, false], false)],
     prog := [.item [.plain 10, .plain 20], .item [.plain 11, .plain 21]], workers := [], killers := [] }
 
-example : exDiv.valid = true := by decide
+example : exDiv.valid = true ∧ exDiv.live = true ∧ dstepBound exDiv = 338 := by decide
 
 /-- `divide_delivery` is not vacuous: a complete run of `exDiv` -/
 example : ∃ s, drun? (dinit exDiv)
